@@ -731,7 +731,8 @@ func run(in Input) lib.Result {
 		return lib.Result{Crash: "harness: cannot set up storage/server: " + srvErr.Error()}
 	}
 	if wedged {
-		return lib.Result{Crash: "harness: an earlier request never returned; the storage may be locked"}
+		// the case that hung has been reported; the storage may be locked by its goroutine, nothing more can be observed here
+		return lib.Result{Feat: map[string]interface{}{"skipped_after_hang": true}}
 	}
 	caseStart := time.Now().Unix()
 	ws := make([]watch, len(in.Steps))
